@@ -267,7 +267,7 @@ func TestC04(t *testing.T) {
 			for i := 0; i < nInst; i++ {
 				fmt.Fprintf(&b, "%s [c%d.get(), c%d.cnt()];\n", bn.KwPrint, i, i)
 			}
-			c.c04Program(s, "closure-histories", b.String(), interleaved && nInst >= 2, "closure-history")
+			c.c04Program(s, "closure-histories", place(b.String(), drawPlacement(rt)), interleaved && nInst >= 2, "closure-history")
 		})
 	})
 }
